@@ -42,6 +42,27 @@ func NewWorldNonce(n, own int, nonce int64) *World {
 	return w
 }
 
+// NewWorldIDWith is NewWorldNonce whose channel ID contains the byte b (store
+// keys embed the raw ID, so separator-like bytes matter): the nonce is searched
+// from start upwards; both the engine (concrete SHA-256) and a native run find
+// their own.
+func NewWorldIDWith(n, own int, start int64, b byte) *World {
+	w := NewWorldNonce(n, own, start)
+	for try := int64(1); try < 200; try++ {
+		id := w.Params.ID()
+		for _, x := range id {
+			if x == b {
+				return w
+			}
+		}
+		p, err := channel.NewParams(60, w.Params.Parts, channel.NoApp(), big.NewInt(start+1000*try), true, false, channel.Aux{})
+		rt.Assume(err == nil)
+		w.Params = p
+	}
+	rt.Assume(false)
+	return w
+}
+
 // OwnAcc returns the account map of the machine's owner.
 func (w *World) OwnAcc() map[wallet.BackendID]wallet.Account {
 	return map[wallet.BackendID]wallet.Account{channel.TestBackendID: w.Accs[w.Own]}
